@@ -95,7 +95,7 @@ func GenSProgram(t *rapid.T, cfg SGenCfg) SProgram {
 	if rapid.IntRange(0, 2).Draw(t, "fullinit") > 0 {
 		p.Init = rf
 	}
-	if cfg.W["boot"] > 0 || cfg.W["loneboot"] > 0 {
+	if cfg.W["boot"] > 0 || cfg.W["loneboot"] > 0 || cfg.W["staleboot"] > 0 {
 		p.RegAll = rapid.Bool().Draw(t, "regall")
 	}
 	nops := rapid.IntRange(cfg.MinOps, cfg.MaxOps).Draw(t, "nops")
@@ -170,6 +170,31 @@ func GenSProgram(t *rapid.T, cfg SGenCfg) SProgram {
 				o.Str = "tcp://127.99.99.99:9502"
 			}
 			p.Ops = append(p.Ops, o)
+		case "staleboot":
+			// the volume restarts on an older replica and a newer one rejoins: a leaves and
+			// misses a write, everybody else is lost, a comes back together with b - which was
+			// replaced by an empty replica - and is elected; then c, which holds more than a,
+			// is added and rebuilt from a: its revision count has to come down to a's
+			if nodes < 3 {
+				continue
+			}
+			perm := rapid.Permutation(seqInts(nodes)).Draw(t, "abc")
+			a, b, c := perm[0], perm[1], perm[2]
+			p.Ops = append(p.Ops, SOp{K: "nodedrop", Node: a})
+			for k := rapid.IntRange(1, 2).Draw(t, "missed"); k > 0; k-- {
+				off := rapid.Int64Range(0, total-1).Draw(t, "off")
+				p.Ops = append(p.Ops, SOp{K: "write", Off: off, Len: rapid.Int64Range(1, min64(total-off, 24)).Draw(t, "len"), Seed: rapid.IntRange(1, 250).Draw(t, "seed")})
+			}
+			for _, o := range perm[1:] {
+				p.Ops = append(p.Ops, SOp{K: "nodedrop", Node: o})
+			}
+			p.Ops = append(p.Ops, SOp{K: "reconnect", Node: a}, SOp{K: "reconnect", Node: b, Str: "fresh"}, SOp{K: "boot", Node: b}, SOp{K: "boot", Node: a})
+			if rapid.Bool().Draw(t, "writeafterrestart") {
+				off := rapid.Int64Range(0, total-1).Draw(t, "off")
+				p.Ops = append(p.Ops, SOp{K: "write", Off: off, Len: rapid.Int64Range(1, min64(total-off, 24)).Draw(t, "len"), Seed: rapid.IntRange(1, 250).Draw(t, "seed")})
+			}
+			p.Ops = append(p.Ops, SOp{K: "reconnect", Node: c}, SOp{K: "add", Node: c}, SOp{K: "promote", Node: c},
+				SOp{K: "read", Off: 0, Len: min64(total, 32), Reps: 3})
 		case "loneboot":
 			// one replica leaves, the volume goes on (a write the leaver misses), then
 			// every other replica is lost as well; the first one comes back alone and
